@@ -2,6 +2,7 @@ package main
 
 import (
 	"fmt"
+	"os"
 	"go/token"
 	"go/types"
 	"sort"
@@ -22,18 +23,37 @@ const (
 	oBounded = 1 << iota // constant, len/cap, clamped
 	oInput               // a number written in the input
 	oUnknown             // flow not followed
+	oRel                 // bounded from above by another number that is itself not bounded (an order between two inputs)
 )
+
+type numKey struct {
+	v   ssa.Value
+	sel int
+}
 
 type numOrigins struct {
 	c       *Ctx
 	callers map[*ssa.Function][]ssa.CallInstruction
-	memo    map[ssa.Value]int
+	memo    map[numKey]int
+	sel     int // when >= 0: only this element of an array of scalars is of interest
 	busy    map[ssa.Value]bool
 	why     map[ssa.Value]string
+	cuts    int
+	// bookkeeping for the relational case: the phi edges found bounded only by another number, and every phi visited
+	relEdges []relEdge
+	lastOther ssa.Value
+	inputs    map[string]bool // asserted types of the input numbers met
+	phis     map[*ssa.Phi]bool
+}
+
+type relEdge struct {
+	blk   *ssa.BasicBlock
+	k     int
+	other ssa.Value
 }
 
 func newNumOrigins(c *Ctx) *numOrigins {
-	no := &numOrigins{c: c, callers: map[*ssa.Function][]ssa.CallInstruction{}, memo: map[ssa.Value]int{}, busy: map[ssa.Value]bool{}, why: map[ssa.Value]string{}}
+	no := &numOrigins{c: c, callers: map[*ssa.Function][]ssa.CallInstruction{}, memo: map[numKey]int{}, sel: -1, phis: map[*ssa.Phi]bool{}, busy: map[ssa.Value]bool{}, why: map[ssa.Value]string{}}
 	for path, sp := range c.SSAPk {
 		if sp == nil || !strings.HasPrefix(path, modPath) {
 			continue
@@ -59,16 +79,24 @@ func (no *numOrigins) of(v ssa.Value, depth int) int {
 	if v == nil {
 		return oUnknown
 	}
-	if r, ok := no.memo[v]; ok {
+	if r, ok := no.memo[numKey{v, no.sel}]; ok {
 		return r
 	}
-	if no.busy[v] || depth > 12 {
+	if no.busy[v] {
+		no.cuts++
 		return 0 // a cycle adds nothing of its own
 	}
+	if depth > 40 {
+		no.cuts++
+		return oUnknown
+	}
 	no.busy[v] = true
+	before := no.cuts
 	r := no.compute(v, depth)
 	delete(no.busy, v)
-	no.memo[v] = r
+	if no.cuts == before {
+		no.memo[numKey{v, no.sel}] = r // a result computed below a cut is partial: it is not remembered
+	}
 	return r
 }
 
@@ -88,10 +116,11 @@ func (no *numOrigins) compute(v ssa.Value, depth int) int {
 		return no.of(x.X, depth+1)
 	case *ssa.TypeAssert:
 		// the dynamic values the combinators hand to the mappers carry what was read from the pattern
+		no.noteInput(x.AssertedType)
 		return oInput
 	case *ssa.Extract:
 		if ta, ok := x.Tuple.(*ssa.TypeAssert); ok && x.Index == 0 {
-			_ = ta
+			no.noteInput(ta.AssertedType)
 			return oInput
 		}
 		if _, ok := x.Tuple.(*ssa.Next); ok {
@@ -129,6 +158,25 @@ func (no *numOrigins) compute(v ssa.Value, depth int) int {
 				return all
 			}
 		}
+		// a function of the module: what it returns (a value returned under a comparison that bounds it from above is bounded)
+		if g := x.Call.StaticCallee(); g != nil && len(g.Blocks) > 0 && strings.HasPrefix(fnPkgPath(g), modPath) && g.Signature.Results().Len() == 1 {
+			all, found := 0, false
+			for _, b := range g.Blocks {
+				ret, ok := b.Instrs[len(b.Instrs)-1].(*ssa.Return)
+				if !ok || len(ret.Results) != 1 {
+					continue
+				}
+				found = true
+				if no.boundedAt(b, ret.Results[0]) {
+					all |= oBounded
+					continue
+				}
+				all |= no.of(ret.Results[0], depth+1)
+			}
+			if found {
+				return all
+			}
+		}
 		return oUnknown
 	case *ssa.BinOp:
 		switch x.Op {
@@ -143,10 +191,18 @@ func (no *numOrigins) compute(v ssa.Value, depth int) int {
 		return no.of(x.X, depth+1)
 	case *ssa.Phi:
 		all := 0
+		no.phis[x] = true
 		for i, e := range x.Edges {
-			if no.edgeClamped(x, i, e) {
+			switch no.edgeClamped(x, i, e) {
+			case oBounded:
 				all |= oBounded
 				continue
+			case oRel:
+				if no.of(e, depth+1)&oInput != 0 {
+					all |= oRel
+					no.relEdges = append(no.relEdges, relEdge{x.Block(), i, no.lastOther})
+					continue
+				}
 			}
 			all |= no.of(e, depth+1)
 		}
@@ -251,7 +307,7 @@ func (no *numOrigins) ofAddr(a ssa.Value, depth int) int {
 
 // storesInto: everything stored into the object (directly, or into an element or field address derived from it).
 func (no *numOrigins) storesInto(obj ssa.Value, depth int) int {
-	all, found := 0, false
+	all, found, pureBounded := 0, false, false
 	var visit func(a ssa.Value, d int)
 	visit = func(a ssa.Value, d int) {
 		if d > 4 || a.Referrers() == nil {
@@ -262,10 +318,19 @@ func (no *numOrigins) storesInto(obj ssa.Value, depth int) int {
 			case *ssa.Store:
 				if u.Addr == a {
 					found = true
-					all |= no.of(u.Val, depth+1)
+					o := no.of(u.Val, depth+1)
+					if o == oBounded {
+						pureBounded = true
+					}
+					all |= o
 				}
 			case *ssa.IndexAddr:
 				if u.X == a {
+					if no.sel >= 0 && scalarArray(a.Type()) {
+						if k, ok := u.Index.(*ssa.Const); ok && k.Value != nil && int(k.Int64()) != no.sel {
+							continue // another element of the array
+						}
+					}
 					visit(u, d+1)
 				}
 			case *ssa.FieldAddr:
@@ -283,32 +348,37 @@ func (no *numOrigins) storesInto(obj ssa.Value, depth int) int {
 	if !found {
 		return oUnknown
 	}
+	if all&oInput != 0 && pureBounded {
+		// a variable that holds a number from the input at one time and a bounded one at another: it may be cut down in
+		// place (x[i] = min(x[i], K)); the order of the stores is not followed here
+		return (all &^ oInput) | oUnknown
+	}
 	return all
 }
 
-// edgeClamped: the value arrives at the phi on an edge on which a comparison has bounded it from above by something bounded
-// (the untaken side of `if x > K { x = K }`).
-func (no *numOrigins) edgeClamped(phi *ssa.Phi, i int, e ssa.Value) bool {
-	pred := phi.Block().Preds[i]
-	conds := controlConds(pred)
-	if ifi, ok := pred.Instrs[len(pred.Instrs)-1].(*ssa.If); ok {
-		conds = append(conds, cond{ifi.Cond, pred.Succs[0] == phi.Block()})
-	}
+// boundedAt: at block b, a dominating comparison bounds v (seen through conversions) from above by something bounded.
+func (no *numOrigins) boundedAt(b *ssa.BasicBlock, v ssa.Value) bool {
+	return no.upperBounded(controlConds(b), v)
+}
+
+func (no *numOrigins) upperBounded(conds []cond, e ssa.Value) bool {
+	base := stripConv(e)
 	for _, cd := range conds {
 		bo, ok := cd.v.(*ssa.BinOp)
 		if !ok {
 			continue
 		}
 		var other ssa.Value
-		var upper bool // e is bounded from above when the condition has this polarity
+		var upper bool
+		x, y := stripConv(bo.X), stripConv(bo.Y)
 		switch {
-		case bo.X == e && (bo.Op == token.LSS || bo.Op == token.LEQ):
+		case x == base && (bo.Op == token.LSS || bo.Op == token.LEQ):
 			other, upper = bo.Y, true
-		case bo.X == e && (bo.Op == token.GTR || bo.Op == token.GEQ):
+		case x == base && (bo.Op == token.GTR || bo.Op == token.GEQ):
 			other, upper = bo.Y, false
-		case bo.Y == e && (bo.Op == token.GTR || bo.Op == token.GEQ):
+		case y == base && (bo.Op == token.GTR || bo.Op == token.GEQ):
 			other, upper = bo.X, true
-		case bo.Y == e && (bo.Op == token.LSS || bo.Op == token.LEQ):
+		case y == base && (bo.Op == token.LSS || bo.Op == token.LEQ):
 			other, upper = bo.X, false
 		default:
 			continue
@@ -318,6 +388,57 @@ func (no *numOrigins) edgeClamped(phi *ssa.Phi, i int, e ssa.Value) bool {
 		}
 	}
 	return false
+}
+
+// upperRelated: a comparison on the way bounds e from above by some other number (whatever that is).
+func (no *numOrigins) upperRelated(conds []cond, e ssa.Value) bool {
+	base := stripConv(e)
+	for _, cd := range conds {
+		bo, ok := cd.v.(*ssa.BinOp)
+		if !ok {
+			continue
+		}
+		x, y := stripConv(bo.X), stripConv(bo.Y)
+		var upper bool
+		switch {
+		case x == base && (bo.Op == token.LSS || bo.Op == token.LEQ):
+			upper = true
+		case x == base && (bo.Op == token.GTR || bo.Op == token.GEQ):
+			upper = false
+		case y == base && (bo.Op == token.GTR || bo.Op == token.GEQ):
+			upper = true
+		case y == base && (bo.Op == token.LSS || bo.Op == token.LEQ):
+			upper = false
+		default:
+			continue
+		}
+		if upper == cd.pol {
+			if x == base {
+				no.lastOther = y
+			} else {
+				no.lastOther = x
+			}
+			return true
+		}
+	}
+	return false
+}
+
+// edgeClamped: the value arrives at the phi on an edge on which a comparison has bounded it from above by something bounded
+// (the untaken side of `if x > K { x = K }`).
+func (no *numOrigins) edgeClamped(phi *ssa.Phi, i int, e ssa.Value) int {
+	pred := phi.Block().Preds[i]
+	conds := controlConds(pred)
+	if ifi, ok := pred.Instrs[len(pred.Instrs)-1].(*ssa.If); ok {
+		conds = append(conds, cond{ifi.Cond, pred.Succs[0] == phi.Block()})
+	}
+	if no.upperBounded(conds, e) {
+		return oBounded
+	}
+	if no.upperRelated(conds, e) {
+		return oRel
+	}
+	return 0
 }
 
 // checkLoopBounds (R14.8): every counting loop of reachable module code whose bound is a number written in the input.
@@ -330,6 +451,7 @@ func checkLoopBounds(c *Ctx, rule string, scope []*ssa.Function) {
 	}
 	var fs []finding
 	nLoops := 0
+	lastDesc := map[string][]string{}
 	for _, f := range scope {
 		for _, b := range f.Blocks {
 			ifi, ok := b.Instrs[len(b.Instrs)-1].(*ssa.If)
@@ -363,21 +485,105 @@ func checkLoopBounds(c *Ctx, rule string, scope []*ssa.Function) {
 				return false
 			}
 			var bound ssa.Value
+			var ctr *ssa.Phi
 			switch {
 			case counter(bo.X) && isIntegerT(bo.X.Type()):
 				bound = bo.Y
+				ctr = bo.X.(*ssa.Phi)
 			case counter(bo.Y) && isIntegerT(bo.Y.Type()):
 				bound = bo.X
+				ctr = bo.Y.(*ssa.Phi)
 			default:
 				continue
 			}
+			// a loop that counts down to a constant runs as often as its start value says
+			if _, isK := bound.(*ssa.Const); isK {
+				down := false
+				var start ssa.Value
+				for _, e := range ctr.Edges {
+					if step, ok := e.(*ssa.BinOp); ok && step.X == ssa.Value(ctr) {
+						if k, ok := step.Y.(*ssa.Const); ok && k.Value != nil && ((step.Op == token.SUB && k.Int64() > 0) || (step.Op == token.ADD && k.Int64() < 0)) {
+							down = true
+						}
+						continue
+					}
+					start = e
+				}
+				if down && start != nil {
+					bound = start
+				}
+			}
 			nLoops++
+			// g[1] of an array of numbers: only what is stored at that index matters (a pair [lo, hi] keeps its two ends apart)
+			no.sel = -1
+			if u, ok := bound.(*ssa.UnOp); ok && u.Op == token.MUL {
+				if ia, ok := u.X.(*ssa.IndexAddr); ok && scalarArray(ia.X.Type()) {
+					if k, ok := ia.Index.(*ssa.Const); ok && k.Value != nil {
+						no.sel = int(k.Int64())
+					}
+				}
+			}
+			no.memo, no.relEdges, no.phis, no.inputs = map[numKey]int{}, nil, map[*ssa.Phi]bool{}, nil
 			o := no.of(bound, 0)
+			no.sel = -1
+			if o&oRel != 0 && o&oInput == 0 {
+				// the bound is, on some path, only known to be below another number. If that other number is where the loop starts
+				// on that very path (the partner phi of the same block takes it on the same edge), the range is empty there.
+				rel := no.relEdges
+				no.memo, no.relEdges, no.phis = map[numKey]int{}, nil, map[*ssa.Phi]bool{}
+				for _, e := range ctr.Edges {
+					if add, ok := e.(*ssa.BinOp); ok && add.X == ssa.Value(ctr) {
+						continue
+					}
+					if u, ok := e.(*ssa.UnOp); ok && u.Op == token.MUL {
+						if ia, ok := u.X.(*ssa.IndexAddr); ok && scalarArray(ia.X.Type()) {
+							if k, ok := ia.Index.(*ssa.Const); ok && k.Value != nil {
+								no.sel = int(k.Int64())
+							}
+						}
+					}
+					no.of(e, 0)
+					no.sel = -1
+				}
+				paired := len(rel) > 0
+				for _, re := range rel {
+					ok := false
+					for ph := range no.phis {
+						if ph.Block() == re.blk && re.k < len(ph.Edges) && stripConv(ph.Edges[re.k]) == re.other {
+							ok = true
+						}
+					}
+					if !ok {
+						paired = false
+					}
+				}
+				if paired {
+					o &^= oRel
+				}
+			}
+			if os.Getenv("EMCHECK_DEBUG") != "" {
+				fmt.Fprintf(os.Stderr, "R14.8 %s bound=%s (%T) flags=%d\n", shortFn(f), bound.Name(), bound, o)
+				if u, ok := bound.(*ssa.UnOp); ok {
+					fmt.Fprintf(os.Stderr, "   addr %s (%T)\n", u.X.Name(), u.X)
+				}
+			}
 			desc := describeVal(bound)
 			if len(desc) > 1 && desc[0] == 't' && strings.Trim(desc[1:], "0123456789") == "" {
 				desc = "a computed value"
 			}
 			key := fmt.Sprintf("%s: loop bounded by %s", shortFn(f), desc)
+			if o&oInput != 0 {
+				// a finding is named after what it is, not after where the loop happens to sit: the package and the kind of number
+				var kinds []string
+				for k := range no.inputs {
+					kinds = append(kinds, k)
+				}
+				sort.Strings(kinds)
+				pk := strings.TrimPrefix(fnPkgPath(f), modPath+"/")
+				key = fmt.Sprintf("%s: a loop runs as often as a number (%s) written in the input says", pk, strings.Join(kinds, ", "))
+				desc = shortFn(f) + ", bound " + desc
+			}
+			lastDesc[key] = append(lastDesc[key], desc)
 			fs = append(fs, finding{key, "", ifi.Pos(), o})
 			if !ifi.Pos().IsValid() {
 				fs[len(fs)-1].pos = bo.Pos()
@@ -399,10 +605,12 @@ func checkLoopBounds(c *Ctx, rule string, scope []*ssa.Function) {
 		x.flags = worst[x.key]
 		switch {
 		case x.flags&oInput != 0:
-			c.Fail(rule, x.key, x.pos, "the number of iterations is a number written in the input (it reaches the loop from a type assertion on a parsed value without being cut down to a constant or a length): a few characters of input make the loop run, and allocate, billions of times, and the process is killed for lack of memory instead of returning an error",
+			c.Fail(rule, x.key, x.pos, "in "+strings.Join(lastDesc[x.key], "; ")+": the number of iterations is a number written in the input (it reaches the loop from a type assertion on a parsed value without being cut down to a constant or a length): a few characters of input make the loop run, and allocate, billions of times, and the process is killed for lack of memory instead of returning an error",
 				"a pattern with a huge count or character code, e.g. a{999999999} or [a-\\x7FFFFFFF]")
 		case x.flags&oUnknown != 0:
 			c.Undecided(rule, x.key, x.pos, "where the bound comes from was not followed to its end")
+		case x.flags&oRel != 0:
+			c.Undecided(rule, x.key, x.pos, "on one path the bound is a number from the input that is known only to be smaller than another such number (an empty range when the loop starts from that other number): the number of iterations depends on the order of the two, which is not followed")
 		default:
 			c.Pass(rule, x.key, x.pos, "")
 		}
@@ -468,4 +676,36 @@ func checkDigitAccumulation(c *Ctx, rule string, pkgPath string) {
 	if n == 0 {
 		c.Undecided(rule, "a decimal number is accumulated under an overflow test", token.NoPos, "no accumulation of the form acc*10 + digit was found in "+pkgPath)
 	}
+}
+
+
+// scalarArray: t is (a pointer to) an array whose elements are numbers.
+func scalarArray(t types.Type) bool {
+	if p, ok := t.Underlying().(*types.Pointer); ok {
+		t = p.Elem()
+	}
+	arr, ok := t.Underlying().(*types.Array)
+	return ok && isIntegerT(arr.Elem())
+}
+
+
+func (no *numOrigins) noteInput(t types.Type) {
+	if no.inputs == nil {
+		no.inputs = map[string]bool{}
+	}
+	for {
+		if p, ok := t.(*types.Pointer); ok {
+			t = p.Elem()
+			continue
+		}
+		break
+	}
+	name := types.TypeString(t, func(*types.Package) string { return "" })
+	if strings.HasPrefix(name, "tuple[") || strings.Contains(name, "tuple") {
+		name = "int" // the repetition range travels as a pair of counts
+	}
+	if name == "int32" {
+		name = "rune"
+	}
+	no.inputs[name] = true
 }
